@@ -361,6 +361,12 @@ pub fn cases(suite: &str, tier: &str, seed: u64, props: &BTreeSet<String>) -> Ve
                 }
             }
         }
+        "seq" => {
+            // generated operation sequences; the replay (tier "thorough", seed 0) regenerates every name
+            for cfg in [CfgSpec::base(), CfgSpec { treasury: false, oracle: false, same_prefix: false, stopped: false }] {
+                out.extend(crate::hist::sequences(&cfg, tier, seed));
+            }
+        }
         "hist" => {
             for cfg in cfgs(tier, seed) {
                 out.extend(crate::hist::histories(&cfg, tier));
@@ -472,6 +478,9 @@ pub fn run_suite(suite: &str, props: &BTreeSet<String>, tier: &str, seed: u64, s
 /// Concrete replay of one case on the real (unpatched) build: does the labelled obligation fail?
 pub fn replay_case(suite: &str, case: &str, props: &BTreeSet<String>, label: &str, miniwasm: bool) -> Value {
     let filter = Filter { props: props.clone() };
+    if suite == "seq" {
+        std::env::set_var("SYMX_SEQ_STRIDE", "1");
+    }
     let all = cases(suite, "thorough", 0, props);
     let c = match all.iter().find(|c| c.name == case) {
         Some(c) => c,
